@@ -26,7 +26,7 @@ RULE = ("random import graphs: 7 modules (packages p, p.s, q; modules p.a, p.b, 
         "{False,True}x{False,None}; resolve_aliases called 3 times. distinct = digest of files+options; non-trivial = "
         "graph has an import cycle (any form) or a dangling target")
 LEVEL_TEXT = ("Every generated graph is loaded and resolved by the real loader under an exception monitor, a function-entry "
-              "step budget and a stack-depth bound; afterwards every alias of the tree is dereferenced through 13 accessors "
+              "step budget and a stack-depth bound; afterwards every alias of the tree is dereferenced through 30 accessors "
               "and must answer or raise only AliasResolutionError/CyclicAliasError; resolved chains are walked passively "
               "to confirm no unresolved link; passive snapshots after the 1st, 2nd and 3rd resolve_aliases() must be equal.")
 LEVEL_NOTE = ("bounded to 7 modules / 4 names / <=5 statements per module; step budget 10^6 function entries and depth "
@@ -54,7 +54,9 @@ def make_extension():  # noqa: ANN201
 
     return Recorder()
 ACCESSORS = ["resolved", "target", "final_target", "kind", "members", "docstring", "lineno", "path", "canonical_path",
-             "is_public", "has_docstrings", "as_json", "is_exported"]
+             "is_public", "has_docstrings", "as_json", "is_exported", "aliases", "labels", "imports", "module", "package",
+             "is_module", "is_class", "is_function", "is_attribute", "inherited_members", "all_members", "lines", "source",
+             "filepath", "exports", "is_wildcard_exposed", "is_imported"]
 
 
 def shards(tier: str, seed: int) -> list[dict]:
@@ -121,7 +123,7 @@ def classify(files: dict, descs: dict, exc: BaseException | None, order: list, e
         # loaded up front, so expand_wildcards() loads it in the middle of iterating obj.members
         flat = _flatten(descs)
         for mod, ds in flat.items():
-            if mod.split(".")[0] not in order:
+            if mod.split(".")[0] not in order:  # ("resolve" tokens are not package names)
                 continue
             for d in ds:
                 if d["t"] == "wild":
@@ -144,6 +146,7 @@ def run_case(rec, files: dict, descs: dict | None, order: list[str], implicit: b
     tags = tuple(t for t, f in (("cycle", cyc), ("dangling", dangling), ("wild-cycle", graphs.has_wildcard_cycle(descs))) if f)
     stage = "load"
     deferred: list[tuple[str, str]] = []
+    loaded_now: list[str] = []
     try:
         with case_watchdog(120), tmp_tree(files) as root:
             WILDCARD_CREATED.clear()
@@ -153,7 +156,14 @@ def run_case(rec, files: dict, descs: dict | None, order: list[str], implicit: b
             steps.begin(STEP_BUDGET)
             try:
                 for pkg in order:
-                    loader.load(pkg)
+                    loaded_now[:] = [x for x in order[: order.index(pkg) + 1] if x != "resolve"] if pkg != "resolve" else loaded_now
+                    if pkg == "resolve":  # histories: load, resolve, load more, resolve again
+                        stage = "resolve_aliases (between loads)"
+                        loader.resolve_aliases(implicit=implicit, external=external)
+                        rec.count("interleaved_resolutions")
+                        stage = "load"
+                    else:
+                        loader.load(pkg)
                 rec.count("graphs_loaded")
                 naliases = len(all_aliases(loader.modules_collection))
                 snaps = []
@@ -279,7 +289,7 @@ def run_case(rec, files: dict, descs: dict | None, order: list[str], implicit: b
         rec.fail_exc(case, f"stack overflow during {stage}", exc, nontrivial=nontrivial, tags=tags)
         return
     except Exception as exc:  # noqa: BLE001
-        fid, tried = classify(files, descs, exc, order, external)
+        fid, tried = classify(files, descs, exc, loaded_now or [x for x in order if x != 'resolve'], external)
         rec.fail_exc(case, f"{type(exc).__name__} escaped {stage}", exc, finding=fid, tried=tried, nontrivial=nontrivial, tags=tags)
         return
     if deferred:  # the walk completed; the only refutations were of a listed mechanism (one record per case)
@@ -370,8 +380,13 @@ def run_shard(spec: dict, rec) -> None:  # noqa: ANN001
     rng = random.Random(spec["seed"])
     steps = mon.Steps()
     for _ in range(spec["count"]):
-        files, descs = graphs.gen_graph(rng, hostile=spec["hostile"])
-        order = rng.choice([["p", "q"], ["q", "p"], ["p"], ["q", "p"]])
+        if rng.random() < 0.3:
+            files, descs = graphs.gen_ring(rng)
+            rec.count("ring_graphs")
+        else:
+            files, descs = graphs.gen_graph(rng, hostile=spec["hostile"])
+        order = rng.choice([["p", "q"], ["q", "p"], ["p"], ["q", "p"], ["p", "resolve", "q"], ["q", "resolve", "p"],
+                            ["p", "resolve", "q", "resolve"]])
         implicit = rng.random() < 0.6
         external = rng.choice([False, None, True])
         run_case(rec, files, descs, order, implicit, external, steps)
